@@ -4,5 +4,137 @@
 
 package patchvalidator
 
+// ---------------------------------------------------------------------------
+// package-level tables: proved on the package initialiser, assumed in every function of the
+// package; a scan shows no function other than the initialiser assigns or updates them.
+
+//@ spec func isPurpose(p string) bool = p == "authentication" || p == "assertionMethod" || p == "keyAgreement" || p == "capabilityDelegation" || p == "capabilityInvocation"
+//@ spec func verificationType(t string) bool = t == "Bls12381G2Key2020" || t == "JsonWebKey2020" || t == "EcdsaSecp256k1VerificationKey2019" || t == "Ed25519VerificationKey2018" || t == "Ed25519VerificationKey2020"
+//@ spec func agreementType(t string) bool = t == "Bls12381G2Key2020" || t == "JsonWebKey2020" || t == "EcdsaSecp256k1VerificationKey2019" || t == "X25519KeyAgreementKey2019"
+//@ spec func generalType(t string) bool = verificationType(t) || t == "X25519KeyAgreementKey2019"
+// the documented key-type x purpose matrix
+//@ spec func typeAllowedFor(purpose string, t string) bool = (purpose == "keyAgreement" && agreementType(t)) || (purpose != "keyAgreement" && isPurpose(purpose) && verificationType(t))
+
+//@ global invariant [regex] asciiRegex == regexp.MustCompile("^[A-Za-z0-9_-]+$") && asciiRegex != nil
+//@ global invariant [purposes] allowedPurposes != nil && len(allowedPurposes) == 5 &&
+//@      keys(allowedPurposes) == setof(document.KeyPurpose("authentication"), document.KeyPurpose("assertionMethod"), document.KeyPurpose("keyAgreement"),
+//@           document.KeyPurpose("capabilityDelegation"), document.KeyPurpose("capabilityInvocation"))
+//@ global invariant [general] allowedKeyTypesGeneral != nil && keys(allowedKeyTypesGeneral) ==
+//@      setof("Bls12381G2Key2020", "JsonWebKey2020", "EcdsaSecp256k1VerificationKey2019", "Ed25519VerificationKey2018", "Ed25519VerificationKey2020", "X25519KeyAgreementKey2019")
+//@ global invariant [verification] allowedKeyTypesVerification != nil && keys(allowedKeyTypesVerification) ==
+//@      setof("Bls12381G2Key2020", "JsonWebKey2020", "EcdsaSecp256k1VerificationKey2019", "Ed25519VerificationKey2018", "Ed25519VerificationKey2020")
+//@ global invariant [agreement] allowedKeyTypesAgreement != nil && keys(allowedKeyTypesAgreement) ==
+//@      setof("Bls12381G2Key2020", "JsonWebKey2020", "EcdsaSecp256k1VerificationKey2019", "X25519KeyAgreementKey2019")
+//@ global invariant [matrix] allowedKeyTypes != nil &&
+//@      keys(allowedKeyTypes) == setof("authentication", "assertionMethod", "keyAgreement", "capabilityDelegation", "capabilityInvocation") &&
+//@      allowedKeyTypes["authentication"] == allowedKeyTypesVerification && allowedKeyTypes["assertionMethod"] == allowedKeyTypesVerification &&
+//@      allowedKeyTypes["keyAgreement"] == allowedKeyTypesAgreement && allowedKeyTypes["capabilityDelegation"] == allowedKeyTypesVerification &&
+//@      allowedKeyTypes["capabilityInvocation"] == allowedKeyTypesVerification
+
+// ---------------------------------------------------------------------------
+// ids, services
+
+//@ func contains(values, value) (r)
+//@   pure
+//@   ensures [iff] r == (exists i int :: 0 <= i && i < len(values) && values[i] == value)
+//@   loop 0 invariant forall j int :: 0 <= j && j < $k ==> values[j] != value
+
+// the id rule: at most 50 characters, all of [A-Za-z0-9_-], at least one (by the pattern)
+//@ spec func idOK(id string) bool = len(id) <= 50 && asciiRegex.MatchString(id)
+//
+//@ func validateID(id) (err)
+//@   pure
+//@   ensures [iff] (err == nil) == idOK(id)
+
+//@ func validateIds(ids) (err)
+//@   pure
+//@   ensures [iff] (err == nil) == (forall i int :: 0 <= i && i < len(ids) ==> idOK(ids[i]))
+//@   loop 0 invariant forall j int :: 0 <= j && j < $k ==> idOK(ids[j])
+
+//@ func validateServiceID(id) (err)
+//@   pure
+//@   ensures [iff] (err == nil) == (id != "" && idOK(id))
+
+//@ func validateServiceType(serviceType) (err)
+//@   pure
+//@   ensures [iff] (err == nil) == (serviceType != "" && len(serviceType) <= 30)
+
+//@ spec func uriOK(uri string) bool = uri != "" && url.ParseRequestURI(uri).1 == nil
+//
+//@ func validateURI(uri) (err)
+//@   pure
+//@   ensures [iff] (err == nil) == uriOK(uri)
+
+//@ func validateURIs(uris) (err)
+//@   pure
+//@   ensures [iff] (err == nil) == (forall i int :: 0 <= i && i < len(uris) ==> uriOK(uris[i]))
+//@   loop 0 invariant forall j int :: 0 <= j && j < $k ==> uriOK(uris[j])
+
+// every string entry of an endpoint list must be a valid URI
+//@ func validateServiceEndpointObjects(objs) (err)
+//@   pure
+//@   ensures [all] (err == nil) == (forall i int :: 0 <= i && i < len(objs) && typeis(objs[i], string) ==> uriOK(objs[i].(string)))
+//@   loop 0 invariant forall j int :: 0 <= j && j < $k && typeis(objs[j], string) ==> uriOK(objs[j].(string))
+
+//@ spec func endpointOK(ep interface{}) bool = ep != nil &&
+//@     (typeis(ep, string) ==> uriOK(ep.(string))) &&
+//@     (typeis(ep, []string) ==> validateURIs(ep.([]string)) == nil) &&
+//@     (typeis(ep, []interface{}) ==> validateServiceEndpointObjects(ep.([]interface{})) == nil)
+//
+//@ func validateServiceEndpoint(serviceEndpoint) (err)
+//@   pure
+//@   ensures [iff] (err == nil) == endpointOK(serviceEndpoint)
+
+//@ spec func serviceOK(s document.Service) bool =
+//@     document.strEntry(s, "id") != "" && idOK(document.strEntry(s, "id")) &&
+//@     document.strEntry(s, "type") != "" && len(document.strEntry(s, "type")) <= 30 && endpointOK(s["serviceEndpoint"])
+//
+//@ func validateService(service) (err)
+//@   pure
+//@   ensures [iff] (err == nil) == serviceOK(service)
+
+//@ func validateServices(services) (err)
+//@   pure
+//@   ensures [iff] (err == nil) == ((forall i int :: 0 <= i && i < len(services) ==> serviceOK(services[i])) &&
+//@        (forall i int, j int :: 0 <= i && i < j && j < len(services) ==> document.strEntry(services[i], "id") != document.strEntry(services[j], "id")))
+//@   loop 0 invariant forall j int :: 0 <= j && j < $k ==> serviceOK(services[j])
+//@   loop 0 invariant forall a int, b int :: 0 <= a && a < b && b < $k ==> document.strEntry(services[a], "id") != document.strEntry(services[b], "id")
+//@   loop 0 invariant forall s string :: has(ids, s) == (exists a int :: 0 <= a && a < $k && document.strEntry(services[a], "id") == s)
+//@   loop 0 invariant ids != nil
+
+// ---------------------------------------------------------------------------
+// keys
+
+//@ func validateJWK(jwk) (err)
+//@   pure
+//@   ensures [iff] (err == nil) == (jwk != nil && document.docJWKValid(jwk))
+
+// purposes: absent, or non-empty, at most five, all known
+//@ func validateKeyPurposes(pubKey) (err)
+//@   pure
+//@   let ps := document.StringArray(pubKey["purposes"])
+//@   ensures [iff] (err == nil) == (!(has(pubKey, "purposes") && len(ps) == 0) && len(ps) <= 5 &&
+//@        (forall i int :: 0 <= i && i < len(ps) ==> isPurpose(ps[i])))
+//@   loop 0 invariant forall j int :: 0 <= j && j < $k ==> isPurpose(ps[j])
+
+//@ func validateKeyTypePurpose(pubKey) (r)
+//@   pure
+//@   let ps := document.StringArray(pubKey["purposes"])
+//@   let t := document.strEntry(pubKey, "type")
+//@   ensures [matrix] r == ((len(ps) == 0 ==> generalType(t)) && (forall i int :: 0 <= i && i < len(ps) ==> typeAllowedFor(ps[i], t)))
+//@   loop 0 invariant forall j int :: 0 <= j && j < $k ==> typeAllowedFor(ps[j], t)
+
+//@ func getRequiredArray(entry) (arr, err)
+//@   pure
+//@   ensures [iff] (err == nil) == (typeis(entry, []interface{}) && len(entry.([]interface{})) > 0)
+//@   ensures [value] err == nil ==> arr == entry.([]interface{})
+
+//@ func getRequiredMap(entry) (required, err)
+//@   pure
+//@   ensures [iff] (err == nil) == typeis(entry, map[string]interface{})
+//@   ensures [value] err == nil ==> required == entry.(map[string]interface{})
+
+// ---------------------------------------------------------------------------
+// dispatch
 //@ func Validate(p) (err)
 //@   pure
